@@ -11,42 +11,46 @@ Example C02_nonvacuous :
   known_grouping nonvacuous_case = false /\ build_model nonvacuous_case = 0.
 Proof. vm_compute. repeat split; reflexivity. Qed.
 
-(* P1  accepted_builds on the fragment: a function the checker (model) accepts and that is outside the
-       known classes lowers without internal error, the emitted token tree parses (Rust's grammar), and
-       the parsed body is well-typed Rust (i64/bool typing, break/continue only in loops, assignment
-       only to `let mut`).  Known_C02 = breaks a documented static rule the checker does not enforce,
-       or is in an emission class of C01, or holds a constant overflow. *)
+(* P1  accepted_builds on the fragment (programs of several functions with calls — positional and
+       keyword arguments — and return): a program the checker (model, either variant of elif handling)
+       accepts and that is outside the known classes lowers without internal error, the emitted token
+       tree parses (Rust's grammar) to function items, and every item is well-typed Rust: i64/bool
+       typing, calls match the callee's signature in number and type of arguments, break/continue only
+       in loops, assignment only to `let mut`, `return` matches the declared result, and a function
+       returning i64 cannot fall off its end.  Known_C02 = breaks a documented static rule the checker
+       does not enforce (Core/Static.v names it), or is in an emission class of C01, or holds a
+       constant overflow. *)
 Theorem C02_accepted_builds : forall ev c,
   check_fn_gen ev c = true -> ~ Known_C02 c ->
-  exists ts b, compile c = COk ts b /\ rtype_fn (params c) b = true.
+  exists ts p, compile c = COk ts p /\ rtype_prog p = true.
 Proof.
   intros ev c _ HK.
   assert (Hs : static_fn c = None).
   { destruct (static_fn c) eqn:E; [|reflexivity]. exfalso. apply HK. left. congruence. }
   assert (Hg : known_grouping c = false).
   { destruct (known_grouping c) eqn:E; [|reflexivity]. exfalso. apply HK. right. left. exact E. }
-  destruct (static_builds c Hs) as (ib & Hl & Ht).
+  destruct (static_builds c Hs) as (fs & Hl & Ht).
   unfold known_grouping in Hg. rewrite Hl in Hg. apply negb_false_iff in Hg. apply reparses_true in Hg.
-  exists (emit_block ib), (tree_of_block ib). split; [|exact Ht].
+  exists (emit_fns fs), (tree_of_fns fs). split; [|exact Ht].
   unfold compile. now rewrite Hl, Hg.
 Qed.
 Print Assumptions C02_accepted_builds.
 
 (* P2  the documented rules alone suffice for lowering and typing (the checker is not needed):
-       no internal error and a well-typed denoted body *)
+       no internal error and well-typed denoted items *)
 Theorem C02_static_builds : forall c,
   static_fn c = None ->
-  exists ib, lower_fn c = LOk ib /\ rtype_fn (params c) (tree_of_block ib) = true.
+  exists fs, lower_prog (cprog c) = LOk fs /\ rtype_prog (tree_of_fns fs) = true.
 Proof. exact static_builds. Qed.
 Print Assumptions C02_static_builds.
 
-(* P3  the property is false without the classes: ten functions the checker model accepts and whose
-       build fails in the model (1 lowering error, 2 tokens do not parse, 3 ill-typed Rust), each
-       with the first documented rule it breaks *)
+(* P3  the property is false without the classes: fourteen programs the (pre-elif-fix) checker model
+       accepts and whose build fails in the model (1 lowering error, 2 tokens do not parse, 3 ill-typed
+       Rust), each with the first documented rule it breaks; with elif branches visited (the current
+       tree) all but the elif witness remain accepted *)
 Theorem C02_accepted_builds_refuted :
   forallb (fun w => let '(c, k, v) := w in
              check_fn c && (static_code c =? k) && (build_model c =? v) && negb (v =? 0)) witnesses = true /\
-  (* with elif branches visited (the pending checker fix) all witnesses but the elif one remain *)
   forallb (fun w => let '(c, k, v) := w in
              check_fn_elif c && (static_code c =? k) && (build_model c =? v) && negb (v =? 0))
           (filter (fun w => negb (only_in_elif (fst (fst w)))) witnesses) = true /\
